@@ -139,6 +139,27 @@ def solve (wd : World X D) (o : Opts) (empty : Bool) (x0 : X) : Outcome × St X 
   let s0 : St X := { x := x0, loaded := x0, useR := false, newNorm := none, nEval := 0 }
   if empty then (.ret .converged .noVars 0, s0) else outer wd o 0 o.maxiter s0
 
+/-- how `NewtonSolver.__init__` reads one option -/
+structure OptRead where
+  key : String
+  attr : String
+  /-- `if KEY not in self._options: default else: self._options[KEY]` -- the value given by the caller is used whenever the key is
+  present, also when it is falsy (`0`, `False`) -/
+  presentKeyWins : Bool
+  deriving DecidableEq, Repr
+
+def refOptionReads : List OptRead := [
+  ⟨"LOG_PROGRESS", "log_progress", true⟩, ⟨"LOG_LEVEL", "log_level", true⟩, ⟨"TIME_LIMIT", "time_limit", true⟩,
+  ⟨"MAXITER", "maxiter", true⟩, ⟨"TOL", "tol", true⟩, ⟨"BT_RHO", "rho", true⟩, ⟨"BT_MAXITER", "bt_maxiter", true⟩,
+  ⟨"BACKTRACKING", "bt", true⟩, ⟨"BT_START_ITER", "bt_start_iter", true⟩]
+
+/-- the value an option gets: the caller's, if the key is present (`presentKeyWins`), else the default.  The variant
+`get(key) or default` (`presentKeyWins = false`) loses falsy values. -/
+def readOpt (r : OptRead) (given : Option Nat) (default : Nat) : Nat :=
+  match given with
+  | some v => if r.presentKeyWins || v != 0 then v else default
+  | none => default
+
 /-! ### `_solver_helper` and what `run_sim` looks at -/
 
 /-- which branch of `_solver_helper` -/
